@@ -191,7 +191,7 @@ func (e *engine) oracleSpec(o *Out) {
 		}
 		if f == nil {
 			if inT || inP {
-				o.Fail("C04", "expired-or-unannounced-node-listed", fmt.Sprintf("node=%s table=%v pending=%v", Hx(id), inT, inP))
+				failMembership(o, "expired-or-unannounced-node-listed", fmt.Sprintf("node=%s table=%v pending=%v", Hx(id), inT, inP))
 			}
 			continue
 		}
@@ -203,7 +203,7 @@ func (e *engine) oracleSpec(o *Out) {
 		case f.dropped:
 			o.Count("spec:dropped")
 			if inT || inP {
-				o.Fail("C04", "left-while-pending-but-listed", fmt.Sprintf("node=%s table=%v pending=%v", Hx(id), inT, inP))
+				failMembership(o, "left-while-pending-but-listed", fmt.Sprintf("node=%s table=%v pending=%v", Hx(id), inT, inP))
 			}
 		case f.bothAddr():
 			o.Count("spec:in-table")
@@ -215,7 +215,7 @@ func (e *engine) oracleSpec(o *Out) {
 				o.Fail("C04", "table-address-differs", fmt.Sprintf("node=%s table=%s,%s advertised=%s,%s", Hx(id), Hx(row.ProxyAddr), Hx(row.AdminAddr), Hx(f.kv[proxyKey]), Hx(f.kv[adminKey])))
 			}
 			if row.Status != wantStatus(f) {
-				o.Fail("C04", "table-status", fmt.Sprintf("node=%s status=%s left=%v unreachable=%v", Hx(id), row.Status, f.left, f.unreach))
+				failMembership(o, "table-status", fmt.Sprintf("node=%s status=%s left=%v unreachable=%v", Hx(id), row.Status, f.left, f.unreach))
 			}
 			checkEndpoints(o, "table", id, row.Endpoints, f)
 		default:
@@ -236,7 +236,7 @@ func (e *engine) oracleSpec(o *Out) {
 				okSt = pn.Status == cluster.NodeStatusUnreachable
 			}
 			if !okSt || f.left {
-				o.Fail("C04", "pending-status", fmt.Sprintf("node=%s status=%q left=%v unreachable=%v", Hx(id), pn.Status, f.left, f.unreach))
+				failMembership(o, "pending-status", fmt.Sprintf("node=%s status=%q left=%v unreachable=%v", Hx(id), pn.Status, f.left, f.unreach))
 			}
 			checkEndpoints(o, "pending", id, pn.Endpoints, f)
 		}
@@ -300,7 +300,7 @@ func (e *engine) Step(ws []string, o *Out) string {
 		case !ok2:
 			o.Fail("C04", "lookup-unsound", "ep="+Hx(ep)+" returned unknown node "+Hx(n.ID))
 		case cur.Status != cluster.NodeStatusActive:
-			o.Fail("C04", "lookup-unsound", "ep="+Hx(ep)+" returned node "+Hx(n.ID)+" with status "+string(cur.Status))
+			failMembership(o, "lookup-unsound", "ep="+Hx(ep)+" returned node "+Hx(n.ID)+" with status "+string(cur.Status))
 		case cur.Endpoints[ep] <= 0:
 			o.Fail("C04", "lookup-unsound", fmt.Sprintf("ep=%s returned node %s advertising %d upstreams", Hx(ep), Hx(n.ID), cur.Endpoints[ep]))
 		}
@@ -528,7 +528,7 @@ func (e *engine) oracleMirror(o *Out) {
 			row, inT := obs.cs.Node(oid)
 			if !ok {
 				if inT {
-					o.Fail("C04", "mirror-row-of-forgotten-node", "observer="+Hx(bid)+" owner="+Hx(oid))
+					failMembership(o, "mirror-row-of-forgotten-node", "observer="+Hx(bid)+" owner="+Hx(oid))
 				}
 				continue
 			}
@@ -540,7 +540,7 @@ func (e *engine) oracleMirror(o *Out) {
 					want = cluster.NodeStatusUnreachable
 				}
 				if row.Status != want {
-					o.Fail("C04", "mirror-status", fmt.Sprintf("observer=%s owner=%s status=%s left=%v unreachable=%v", Hx(bid), Hx(oid), row.Status, V.Left, V.Unreachable))
+					failMembership(o, "mirror-status", fmt.Sprintf("observer=%s owner=%s status=%s left=%v unreachable=%v", Hx(bid), Hx(oid), row.Status, V.Left, V.Unreachable))
 				}
 			}
 			if V.Version != O.Version {
@@ -570,7 +570,7 @@ func (e *engine) oracleMirror(o *Out) {
 			}
 			cur, ok2 := obs.cs.Node(n.ID)
 			if n.ID == bid || !ok2 || cur.Status != cluster.NodeStatusActive || cur.Endpoints[ep] <= 0 {
-				o.Fail("C04", "lookup-unsound", "observer="+Hx(bid)+" ep="+Hx(ep)+" node="+Hx(n.ID))
+				failMembership(o, "lookup-unsound", "observer="+Hx(bid)+" ep="+Hx(ep)+" node="+Hx(n.ID))
 			}
 		}
 	}
@@ -839,4 +839,12 @@ func genGossip(r *rand.Rand, c int, w *bufio.Writer) {
 			fmt.Fprintf(w, "g.expire %s %d\n", Hx(a), Pick(r, []int{-3600, 30, 90, 90, 600}))
 		}
 	}
+}
+
+// failMembership reports a clause that is about membership status in the routing table: it belongs
+// to C04 (the table mirrors what is advertised) and to C11 (left / unreachable / expired nodes are
+// excluded from routing while so marked).
+func failMembership(o *Out, clause, detail string) {
+	o.Fail("C04", clause, detail)
+	o.Fail("C11", clause, detail)
 }
